@@ -186,7 +186,9 @@ class Cleaner(object):
             # Store it
             try:
                 if raw_data:
-                    if content:
+                    # lines read from a file keep their newline: one that holds
+                    # nothing else is as blank as '' is for `clean_content`
+                    if content and any(l.strip() for l in content):
                         with open(_file, 'wb') as fh:
                             for line in content:
                                 fh.write(line.encode('utf-8') if six.PY3 else line)
